@@ -153,6 +153,35 @@ func noEarlyExit(p *core.Prog, r *core.Report, rule string, l *core.Loop, what s
 func runC14(p *core.Prog, r *core.Report, tier string) {
 	ds := core.NewDescriber()
 
+	// ---- (m) attestations that were made are reported without an error: the controller gives up on the slot (no
+	// aggregation is scheduled) whenever Attest returns an error, so a return that carries attestations carries a nil error ----
+	if at := p.Func("services/attester/standard", "Service", "Attest"); at != nil {
+		for k, ret := range core.ReturnsOf(at) {
+			if len(ret.Results) != 2 || ret.Block() == at.Recover {
+				continue
+			}
+			carries := false
+			for _, lf := range core.PhiLeaves(core.Unspill(ret.Results[0]), ret) {
+				if !core.IsNilConst(lf.V) {
+					carries = true
+				}
+			}
+			if !carries {
+				continue
+			}
+			errNil := true
+			for _, lf := range core.PhiLeaves(core.Unspill(ret.Results[1]), ret) {
+				if !core.IsNilConst(lf.V) {
+					errNil = false
+				}
+			}
+			r.Check(errNil, "C14.m", fmt.Sprintf("%s|return#%d|attestations-without-error", core.FnKey(at), k+1), p.Pos(ret.Pos()), "a return that carries attestations carries no error",
+				"Attest can return the attestations it made together with an error: its caller stops at the error, so no aggregation is scheduled for the committees that did attest")
+		}
+	} else {
+		r.Undecide("C14.m", "services/attester/standard.Service.Attest", "", "anchor not found")
+	}
+
 	// ---- (a),(b): subscription list ----
 	nA := 0
 	for _, f := range p.FuncsIn(bcsRel) {
